@@ -104,9 +104,27 @@ class _RaiseMark(ast.stmt):
         self.con = con
 
 
+class _ForBack(ast.stmt):
+    """continuation marker: the end of one iteration of `for` statement .node (take the next element)"""
+    _fields = ()
+
+    def __init__(self, node):
+        super().__init__()
+        self.node = node
+
+
+def _cty(ty):
+    """Coq type of a frame / parameter type tag"""
+    if ty.startswith("list:"):
+        return f"list {ty[5:]}"
+    if ty == "objidx":
+        return "Z"
+    return COQ_TY[ty]
+
+
 class GenSpec(FnSpec):
     def __init__(self, path, cls, method, name, requests=(), callouts=(), raises=(), objects=(), sees=None, interrupt=None,
-                 binds=None, param_objects=(), **kw):
+                 binds=None, param_objects=(), iterables=(), idx_aliases=(), idx_reads=(), spin=False, **kw):
         for bad in ("select", "stateops", "bindings", "guards", "aliases", "decorator", "ret"):
             if bad in kw:
                 raise ValueError(f"GenSpec: {bad} is not supported for generator bodies")
@@ -118,6 +136,10 @@ class GenSpec(FnSpec):
         self.sees = dict(sees or {})
         self.binds = dict(binds or {})
         self.param_objects = list(param_objects)      # parameters of the generator that hold objects (bound at entry)
+        self.iterables = [tuple(x) for x in iterables]
+        self.idx_aliases = [tuple(x) for x in idx_aliases]
+        self.idx_reads = [tuple(x) for x in idx_reads]
+        self.spin = spin
         self.interrupt = interrupt
 
 
@@ -144,9 +166,17 @@ class GenTr(FxTr):
     def __init__(self, spec, state, record, prefix, effect_type, f):
         super().__init__(spec, state, record, prefix, effect_type)
         self.f = f
-        self.requests = [(_parse_expr(src), con, tys, resume) for (src, con, tys, resume) in spec.requests]
+        self.requests = [(_parse_expr(r[0]), r[1], r[2], r[3], (r[4] if len(r) > 4 else None)) for r in spec.requests]
         self.callouts = [(_parse_stmt(src), con, tys) for (src, con, tys) in spec.callouts]
         self.raises = [(_parse_stmt(src), con) for (src, con) in spec.raises]
+        self.iterables = [(_parse_expr(src), param, tys) for (src, param, tys) in spec.iterables]
+        self.idx_aliases = [(_parse_stmt(src), name, ty) for (src, name, ty) in spec.idx_aliases]
+        self.idx_reads = [(ast.dump(_parse_expr(src)), obj, param, ty) for (src, obj, param, ty) in spec.idx_reads]
+        fors = sorted([n for n in ast.walk(f) if isinstance(n, ast.For)], key=lambda n: (n.lineno, n.col_offset))
+        self.for_index = {id(n): i + 1 for i, n in enumerate(fors)}
+        used = {n.id for n in ast.walk(f) if isinstance(n, ast.Name)}
+        if any(self.hidden(n) in used for n in fors):
+            raise Unsupported("a local is named like the hidden rest-of-table variable of a for loop")
         # program points: every yield statement and every listed call-out of the method, in source order
         pts = []
         for n in ast.walk(f):
@@ -166,13 +196,29 @@ class GenTr(FxTr):
     def env0(self):
         env = super().env0()
         env["unrolled"] = frozenset()
+        env["wsnap"] = {}          # while statement -> environment at its first entry on this path
+        env["forfix"] = {}         # for statement -> (name of the enclosing generated fix, environment at its creation)
         return env
 
     @staticmethod
     def copy(env):
         env2 = FxTr.copy(env)
         env2["unrolled"] = env["unrolled"]
+        env2["wsnap"] = dict(env["wsnap"])
+        env2["forfix"] = dict(env["forfix"])
         return env2
+
+    def hidden(self, node):
+        return f"for{self.for_index[id(node)]}_rest"
+
+    def snapshot(self, env):
+        return ({key: v.term for key, v in env["vars"].items()}, self.fx_term(env["fx"]), frozenset(env["drawn"]))
+
+    def unchanged(self, env, snap):
+        """nothing the code can observe differs from the snapshot (locals assigned since do not count)"""
+        vars0, fx0, drawn0 = snap
+        return (all(key in env["vars"] and env["vars"][key].term == t for key, t in vars0.items())
+                and self.fx_term(env["fx"]) == fx0 and frozenset(env["drawn"]) == drawn0)
 
     # ---- objects: mentioned only inside listed patterns, and only where bound ----------------------------------------
     def check_bound(self, node, env, what):
@@ -184,6 +230,14 @@ class GenTr(FxTr):
 
     def read(self, e, env):
         r = super().read(e, env)
+        if r is None and self.idx_reads and isinstance(e, ast.expr):
+            d = ast.dump(e)
+            for (dd, obj, param, ty) in self.idx_reads:      # an observation of an indexed object: a function of its index
+                if dd == d:
+                    v = env["vars"].get(("local", obj))
+                    if v is None or v.ty != "obj" or v.term is None:
+                        raise Unsupported(f"observation `{ast.unparse(e)[:40]}`: {obj} is not bound to an indexed object here")
+                    return (f"({param} {v.term})", ty)
         if r is not None:
             self.check_bound(e, env, "observation")
         return r
@@ -246,14 +300,18 @@ class GenTr(FxTr):
         """does statement s contain anything that ends or leaves the straight-line path?"""
         for n in ast.walk(s):
             if isinstance(n, (ast.Yield, ast.YieldFrom, ast.Await, ast.Return, ast.Raise, ast.Assert, ast.While, ast.For,
-                              ast.Try, ast.Break, ast.Continue, ast.With, _RaiseMark, _Back, _EndTry)):
+                              ast.Try, ast.Break, ast.Continue, ast.With, _RaiseMark, _Back, _EndTry, _ForBack)):
                 return True
             if isinstance(n, ast.stmt) and self.callout_of(n) is not None:
                 return True
         return False
 
+    def names_after(self, kont):
+        hidden_of = self.hidden
+        return self._names_after(kont, hidden_of)
+
     @staticmethod
-    def names_after(kont):
+    def _names_after(kont, hidden_of):
         """local names that may be READ before they are written in the statements that run after a program point
         (backward liveness over the structured continuation; an over-approximation is harmless: a frame entry that is
         never read is an unused parameter, a missing one is Unsupported)"""
@@ -264,6 +322,20 @@ class GenTr(FxTr):
             for s in reversed(stmts):
                 if isinstance(s, _Back):
                     s = s.loop
+                hid = set()
+                if isinstance(s, _ForBack):
+                    hid = {hidden_of(s.node)}
+                    s = s.node
+                if isinstance(s, ast.For):
+                    tg = names(s.target)
+                    head = out | (set() if hid else names(s.iter)) | hid
+                    while True:
+                        nxt = head | (live(list(s.body), head, out, head) - tg)
+                        if nxt == head:
+                            break
+                        head = nxt
+                    out = head
+                    continue
                 if isinstance(s, _EndTry):
                     for h in s.node.handlers:                   # an interrupt thrown at a point inside the try
                         out = out | live(list(h.body), out, brk, cont)
@@ -300,7 +372,7 @@ class GenTr(FxTr):
     @staticmethod
     def kont_key(kont):
         return tuple(("back", id(i.loop)) if isinstance(i, _Back) else ("endtry", id(i.node)) if isinstance(i, _EndTry)
-                     else ("s", id(i)) for i in kont)
+                     else ("forback", id(i.node)) if isinstance(i, _ForBack) else ("s", id(i)) for i in kont)
 
     def pp_name(self, k):
         return f"{self.spec.pp_prefix}{k}"
@@ -317,7 +389,7 @@ class GenTr(FxTr):
         cand = {}
         for key, v in env["vars"].items():
             if key[0] == "local" and key[1] in later and key[1] != rebound and not key[1].startswith("\0"):
-                cand[key[1]] = v.ty
+                cand[key[1]] = "objidx" if (v.ty == "obj" and v.term is not None) else v.ty
         if k not in self.frames:
             self.frames[k] = cand
             self.dirty = True
@@ -331,6 +403,9 @@ class GenTr(FxTr):
         for n in sorted(self.frames[k]):
             if self.frames[k][n] != "obj":
                 v = env["vars"][("local", n)]
+                if self.frames[k][n] == "objidx" or self.frames[k][n].startswith("list:"):
+                    args.append(v.term)
+                    continue
                 args.append(self.toQ(v) if self.frames[k][n] == "Q" and v.ty == "Z" else v.term)
         return self.pp_name(k) if not args else "(" + " ".join([self.pp_name(k)] + args) + ")"
 
@@ -351,6 +426,8 @@ class GenTr(FxTr):
             return self.do_while(s.loop, rest, env, k)
         if isinstance(s, _EndTry):
             return self.block(rest, env, k)
+        if isinstance(s, _ForBack):
+            return self.for_back(s.node, rest, env, k)
         if isinstance(s, _RaiseMark):
             return self.end_path(env, f"(NxRaise {s.con})")
         if any(_match(pat, s, {}) for pat in self.ignored):
@@ -358,7 +435,7 @@ class GenTr(FxTr):
         y = _yield_of(s)
         if y is not None:
             return self.do_yield(s, y[0], y[1], rest, env)
-        if isinstance(s, (ast.If, ast.While, ast.Try)):
+        if isinstance(s, (ast.If, ast.While, ast.Try, ast.For)):
             pass
         elif _has_yield(s):
             raise Unsupported(f"yield inside `{ast.unparse(s)[:60]}` (only `yield e` and `x = yield e` as statements)")
@@ -381,6 +458,16 @@ class GenTr(FxTr):
             return self.do_if(node, rest, env, k)
         if isinstance(s, ast.While):
             return self.do_while(s, rest, env, k)
+        if isinstance(s, ast.For):
+            return self.do_for(s, rest, env, k)
+        for (pat, name, ty) in self.idx_aliases:             # `store = self.stores[flow_id]`: an object known by its index
+            binds = {}
+            if _match(pat, s, binds):
+                if sorted(binds) != ["_1"] or name not in self.spec.objects:
+                    raise Unsupported(f"indexed alias of {name}: exactly one hole, and {name} a listed object")
+                env2 = self.copy(env)
+                env2["vars"][("local", name)] = V(self.hole(binds["_1"], ty, env), "obj")
+                return self.block(rest, env2, k)
         if isinstance(s, ast.Try):
             if (len(s.handlers) != 1 or s.orelse or s.finalbody or self.spec.interrupt is None
                     or not isinstance(s.handlers[0].type, ast.Name) or s.handlers[0].type.id != self.spec.interrupt):
@@ -393,7 +480,7 @@ class GenTr(FxTr):
             return self.block(list(s.body) + [_EndTry(s)] + rest, env, k)
         if isinstance(s, (ast.Break, ast.Continue)):
             for i, x in enumerate(rest):
-                if isinstance(x, _Back):
+                if isinstance(x, (_Back, _ForBack)):
                     return self.block(rest[i:] if isinstance(s, ast.Continue) else rest[i + 1:], env, k)
             raise Unsupported("break / continue outside a loop")
         if isinstance(s, ast.AnnAssign):
@@ -420,7 +507,7 @@ class GenTr(FxTr):
     def do_yield(self, s, target, req, rest, env):
         if req is None:
             raise Unsupported("bare yield")
-        for (pat, con, tys, resume) in self.requests:
+        for (pat, con, tys, resume, idx_of) in self.requests:
             binds = {}
             if _match(pat, req, binds):
                 self.check_bound(req, env, "request")
@@ -429,6 +516,11 @@ class GenTr(FxTr):
                     raise Unsupported(f"request pattern of {con}: {len(names)} holes, {len(tys)} types")
                 env, nodes = self.hoist_holes([binds[n] for n in names], env)
                 args = [self.hole(nd, ty, env) for nd, ty in zip(nodes, tys)]
+                if idx_of is not None:                           # a request on an indexed object carries its index
+                    v = env["vars"].get(("local", idx_of))
+                    if v is None or v.ty != "obj" or v.term is None:
+                        raise Unsupported(f"request on {idx_of}, which is not bound to an indexed object here")
+                    args.append(v.term)
                 if resume is None and target is not None:
                     raise Unsupported(f"the value of `yield {ast.unparse(req)[:40]}` is used")
                 if resume == "obj" and (target is None or target not in self.spec.objects):
@@ -443,11 +535,81 @@ class GenTr(FxTr):
         if w.orelse:
             raise Unsupported("while ... else")
         if id(w) in env["unrolled"]:
+            if self.spec.spin and self.unchanged(env, env["wsnap"][id(w)]):
+                # a whole iteration changed nothing and reached no yield: every further one does the same (the process hangs)
+                return self.end_path(env, "NxSpin")
             raise Unsupported(f"the loop at line {w.lineno} can iterate without reaching a yield")
         env2 = self.copy(env)
         env2["unrolled"] = env["unrolled"] | {id(w)}
+        env2["wsnap"][id(w)] = self.snapshot(env)
         node = ast.If(test=w.test, body=list(w.body) + [_Back(w)], orelse=[])
         return self.do_if(node, rest, env2, k, force_split=True)
+
+    def iterable(self, e, env):
+        """-> (Coq term of the list, [element types]) for a listed iterable"""
+        for (pat, param, tys) in self.iterables:
+            binds = {}
+            if _match(pat, e, binds):
+                if param is None:                            # range(_1)
+                    if sorted(binds) != ["_1"]:
+                        raise Unsupported("range pattern needs exactly one hole")
+                    return f"(gen_range {self.hole(binds['_1'], 'Z', env)})", list(tys)
+                if binds:
+                    raise Unsupported("holes in a table iterable")
+                return param, list(tys)
+        raise Unsupported(f"`for .. in {ast.unparse(e)[:50]}`: not a listed iterable")
+
+    def do_for(self, s, rest, env, k, over=None):
+        """for <targets> in <table>: body   =   a structural fix over the (remaining) table; its [] case runs what follows the
+        loop, its cons case one iteration ending in the recursive call (_ForBack); `over` = the remaining table when the
+        loop is resumed from a program point inside it"""
+        if s.orelse:
+            raise Unsupported("for ... else")
+        lterm, tys = self.iterable(s.iter, env)
+        if over is not None:
+            lterm = over
+        names = [s.target] if isinstance(s.target, ast.Name) else list(s.target.elts) if isinstance(s.target, ast.Tuple) else None
+        if names is None or any(not isinstance(n, ast.Name) for n in names) or len(names) != len(tys):
+            raise Unsupported("for target does not fit the element type of the listed iterable")
+        if any(n.id in self.spec.objects for n in names):
+            raise Unsupported("a loop variable is a listed object")
+        ety = tys[0] if len(tys) == 1 else "(" + " * ".join(COQ_TY[t] for t in tys) + ")"
+        ety = COQ_TY[ety] if len(tys) == 1 else ety
+        idx = self.for_index[id(s)]
+        fix, lv, xv = self.fresh(f"scan{idx}_"), self.fresh(f"l{idx}_"), self.fresh(f"x{idx}_")
+        saved = dict(self.counters)
+        nil = self.block(list(rest), env, k)
+        end_nil = dict(self.counters)
+        self.counters = dict(saved)
+        env_b = self.copy(env)
+        env_b["forfix"][id(s)] = (fix, self.snapshot(env))
+        vs = []
+        for n, t in zip(names, tys):
+            v = self.fresh(n.id)
+            vs.append(v)
+            env_b["vars"][("local", n.id)] = V(v, t)
+        env_b["vars"][("local", self.hidden(s))] = V(f"{lv}'", f"list:{ety}")
+        body = self.block(list(s.body) + [_ForBack(s)] + list(rest), env_b, k)
+        self.counters = {n: max(end_nil.get(n, 0), self.counters.get(n, 0)) for n in set(end_nil) | set(self.counters)}
+        bind = f"let {vs[0]} := {xv} in " if len(vs) == 1 else f"let '({', '.join(vs)}) := {xv} in "
+        return (f"((fix {fix} ({lv} : list {ety}) : {self.spec.ret_type} :=\n"
+                f"    match {lv} with\n"
+                f"    | [] => " + _ind(nil, 12) + "\n"
+                f"    | {xv} :: {lv}' => {bind}\n"
+                f"                " + _ind(body, 16) + "\n"
+                f"    end) {lterm})")
+
+    def for_back(self, node, rest, env, k):
+        h = env["vars"].get(("local", self.hidden(node)))
+        if h is None:
+            raise Unsupported("the rest of the table of a for loop is not available here")
+        if id(node) in env["forfix"]:
+            fix, snap = env["forfix"][id(node)]
+            if not self.unchanged(env, snap):
+                raise Unsupported(f"an iteration of the for loop at line {node.lineno} that reaches no yield changes state, "
+                                  f"effects or draws")
+            return f"({fix} {h.term})"
+        return self.do_for(node, rest, env, k, over=h.term)      # resumed inside the loop: go on over the rest of the table
 
     def do_if(self, s, rest, env, k, force_split=False):
         t = s.test
@@ -536,7 +698,8 @@ class GenTr(FxTr):
     def start_env(self, kpt):
         env = self.env0()
         for n, ty in sorted(self.frames[kpt].items()):
-            env["vars"][("local", n)] = V(None, "obj") if ty == "obj" else V(f"fr_{n}", ty)
+            env["vars"][("local", n)] = (V(None, "obj") if ty == "obj" else V(f"fr_{n}", "obj") if ty == "objidx"
+                                         else V(f"fr_{n}", ty))
         if kpt == 0:
             params = [a.arg for a in self.f.args.args]
             for n in self.spec.param_objects:
@@ -567,10 +730,10 @@ def _canonical_object_names(f, spec):
     """the tables name the object a request resumes with by ONE canonical local name (`packet`): if the body binds it to
     another local (`pkt = yield self.store.get()`), that local is renamed throughout the body -- provided the canonical
     name is not in use for anything else and the local is bound by nothing but such yields"""
-    if len(spec.objects) != 1:
+    if not spec.objects:
         return
-    canon = spec.objects[0]
-    pats = [_parse_expr(src) for (src, con, tys, resume) in spec.requests if resume == "obj"]
+    canon = spec.objects[0]          # the first listed object is the one requests resume with
+    pats = [_parse_expr(r[0]) for r in spec.requests if r[3] == "obj"]
     names = set()
     for n in ast.walk(f):
         if isinstance(n, ast.stmt):
@@ -598,6 +761,7 @@ def translate_gen(spec, state, record, prefix, effect_type):
     if not _has_yield(f):
         raise Unsupported(f"{spec.cls}.{spec.method} is not a generator")
     _canonical_object_names(f, spec)
+    spec.ret_type = " * ".join(([record] if state else []) + [f"list {effect_type}", spec.next_type])
     tr = GenTr(spec, state, record, prefix, effect_type, f)
     # frames: fixpoint (a frame only shrinks; a new point starts from what the first path to it defines)
     for _ in range(4 * (len(tr.point) + 2)):
@@ -620,18 +784,29 @@ def translate_gen(spec, state, record, prefix, effect_type):
     ps = (f" (s : {record})" if state else "")
     seen = {}
     tail = ""
-    for (_, p, ty, _) in list(spec.reads) + [(None, q, ty, None) for (_, p, ty, _) in spec.draws
-                                             for q in ([p] if isinstance(p, str) else p)]:
+    def param(p, ty, text):
+        nonlocal tail
         if p in seen:
             if seen[p] != ty:
                 raise Unsupported(f"parameter {p} is listed with two types")
-            continue
+            return
         seen[p] = ty
-        tail += f" ({p} : {COQ_TY[ty]})"
+        tail += f" ({p} : {text})"
+    for (_, p, ty, _) in spec.reads:
+        param(p, ty, COQ_TY[ty])
+    for (_, p, tys) in spec.iterables:                       # a table the body iterates over: a list parameter
+        if p is not None:
+            ety = COQ_TY[tys[0]] if len(tys) == 1 else "(" + " * ".join(COQ_TY[t] for t in tys) + ")"
+            param(p, "list:" + ety, f"list {ety}")
+    for (_, obj, p, ty) in spec.idx_reads:                   # an observation of an indexed object: a function of the index
+        param(p, "fun:" + ty, f"Z -> {COQ_TY[ty]}")
+    for (_, p, ty, _) in spec.draws:
+        for q in ([p] if isinstance(p, str) else p):
+            param(q, ty, COQ_TY[ty])
     rt = ([record] if state else []) + [f"list {effect_type}", spec.next_type]
     lines = open(spec.path).read().splitlines()
     for kpt in sorted(tr.konts):
-        fr = "".join(f" (fr_{n} : {COQ_TY[ty]})" for n, ty in sorted(tr.frames[kpt].items()) if ty != "obj")
+        fr = "".join(f" (fr_{n} : {_cty(ty)})" for n, ty in sorted(tr.frames[kpt].items()) if ty != "obj")
         objs = [n for n, ty in sorted(tr.frames[kpt].items()) if ty == "obj"]
         if kpt == 0:
             where = "entry (the kernel processes the Initialize event)"
@@ -668,6 +843,9 @@ def gen_run_module(title, spec, state, record, prefix, effect_type, fx_cons, req
     out += [f"(* {title} *)", "(* by vlib/translate_gen.py: the generator body cut at its program points (0 = entry, then every yield /",
             "   listed call-out in source order); one definition per reachable point: state fields, effects in program order,",
             "   and what the process does next *)", ""]
+    if any(p is None for (_, p, _) in spec.iterables):
+        out.append("(* range(n) *)")
+        out.append("Definition gen_range (n : Z) : list Z := map Z.of_nat (seq 0 (Z.to_nat n)).")
     if any(ty in ("mapQ", "mapZ") for _, ty in state):
         out.append("(* d[k] = v on a dict modelled as a total function *)")
         out.append("Definition gen_upd {V : Type} (f : Z -> V) (k : Z) (v : V) : Z -> V := fun x => if Z.eqb x k then v else f x.")
@@ -685,13 +863,15 @@ def gen_run_module(title, spec, state, record, prefix, effect_type, fx_cons, req
     for kpt in sorted(tr.konts):
         if kpt == 0:
             continue
-        pps.append((tr.pp_name(kpt), " ".join(f"({n} : {COQ_TY[ty]})" for n, ty in sorted(tr.frames[kpt].items()) if ty != "obj")))
+        pps.append((tr.pp_name(kpt), " ".join(f"({n} : {_cty(ty)})" for n, ty in sorted(tr.frames[kpt].items()) if ty != "obj")))
     out.append("(* program points (with the numeric locals that live across them) *)")
     out.append(ind(f"{types}_pp", pps))
     nx = [("NxYield", f"(r : {types}_req) (k : {types}_pp)")]
     if call_cons:
         nx.append(("NxCall", f"(c : {types}_call) (k : {types}_pp)"))
     nx += [("NxExit", ""), ("NxRaise", f"(e : {types}_exn)")]
+    if spec.spin:
+        nx.append(("NxSpin", ""))          # the generator loops for ever without yielding
     out.append(ind(f"{types}_next", nx))
     out.append("")
     out += defs
